@@ -11,10 +11,12 @@ from registry import REGISTRY  # noqa: E402
 
 static = json.load(open(os.path.join(ROOT, "tools", "manifest_static.json")))
 props = [json.loads(l)["id"] for l in open(os.path.join(ROOT, "properties.jsonl")) if l.strip()]
+# only properties whose check has passed quick+thorough on the unchanged tree with several seeds are claimed
+verified = set(l.split()[0] for l in open(os.path.join(ROOT, "tools", "verified.txt")) if l.strip() and not l.startswith("#"))
 checks = []
 engines = {}
 for pid in props:
-    if pid not in REGISTRY:
+    if pid not in REGISTRY or pid not in verified:
         continue
     c = REGISTRY[pid]
     checks.append({
@@ -32,11 +34,11 @@ for pid in props:
                                                        "serves_properties": [], "kind_free_text":
                                                        "TLA+ specification + TLC (design check, scenario generator, trace judge) bound to the Go code by harness/cmd/" + c["driver"]})
     e["serves_properties"].append(pid)
-na = [x for x in static.get("not_applicable", []) if x["property_id"] not in REGISTRY]
+na = [x for x in static.get("not_applicable", []) if not (x["property_id"] in REGISTRY and x["property_id"] in verified)]
 listed = set(x["property_id"] for x in na)
 for pid in props:
-    if pid not in REGISTRY and pid not in listed:
-        na.append({"property_id": pid, "reason": "no check registered yet (not claimed; see DESIGN.md section 9 build order)"})
+    if not (pid in REGISTRY and pid in verified) and pid not in listed:
+        na.append({"property_id": pid, "reason": "check not yet registered as verified on the unchanged tree (not claimed; see DESIGN.md section 9 build order)"})
 hooks = dict(static["hooks"])
 man = {"version": 1, "setup_cmd": static["setup_cmd"], "hooks": hooks, "engines": list(engines.values()),
        "checks": checks, "notes": static.get("notes", ""), "not_applicable": na}
